@@ -358,7 +358,7 @@ def quoted_word_typestate(prog, chk, rid):
             for d in n["decls"]:
                 if d.get("t") == "String" and acc is None:
                     acc = d["n"]
-                if d.get("t") == "bool":
+                if (d.get("t") or "").replace("const ", "").strip() == "bool":
                     flags.append(d["n"])
     if acc is None:
         raise AnalysisBroken("splitCommandLine: accumulator String local not found")
